@@ -11,6 +11,7 @@ CONSTANTS
   Seq = FALSE
   UseLock = TRUE
   UseGapAtomic = TRUE
+  FinalTestsDone = TRUE
   AbortEnabled = FALSE
 SYMMETRY Perms
 INVARIANT TypeOK
@@ -19,6 +20,5 @@ INVARIANT NoLostInsert
 INVARIANT FinalValid
 INVARIANT FlagsTruthful
 INVARIANT CompleteOrExhausted
-INVARIANT PanicOnlyIfShortOrStale
 INVARIANT NoSpuriousPanic
 CHECK_DEADLOCK TRUE
